@@ -126,7 +126,37 @@ func sameField(a, b *Node) bool {
 func (g *PredGen) Atom(depth int) *Node {
 	r := g.R
 	for {
-		switch r.Intn(12) {
+		switch r.Intn(13) {
+		case 12: // two key ranges that meet in exactly one key
+			if g.NoKeyPin || len(g.KeyLits) == 0 {
+				continue
+			}
+			l := g.KeyLits[r.Intn(len(g.KeyLits))]
+			lo, hi := g.KeyLits[r.Intn(len(g.KeyLits))], g.KeyLits[r.Intn(len(g.KeyLits))]
+			if lo >= l {
+				lo = ""
+			}
+			if hi <= l {
+				hi = l + "~"
+			}
+			var a, b *Node
+			switch r.Intn(4) {
+			case 0:
+				a, b = Bin(">=", Key(), Str(l)), Bin("<=", Key(), Str(l))
+			case 1:
+				a, b = Bin("<=", Key(), Str(l)), Bin("<=", Str(l), Key())
+			case 2:
+				if lo == "" {
+					continue
+				}
+				a, b = Between(Key(), Str(lo), Str(l)), Between(Key(), Str(l), Str(hi))
+			default:
+				a, b = Between(Key(), Str(l), Str(hi)), Bin("<=", Key(), Str(l))
+			}
+			if r.Bool() {
+				a, b = b, a
+			}
+			return And(a, b)
 		case 0, 1, 2: // field vs literal, either orientation
 			f, pool := g.field()
 			if g.NoKeyPin && f.K == KKey {
